@@ -5,6 +5,7 @@ import (
 	"encoding/json"
 	"fmt"
 	"os"
+	"runtime"
 	"runtime/debug"
 	"strings"
 	"testing"
@@ -56,7 +57,25 @@ func RunOne(t *testing.T, c *Check, req *Request) *Outcome {
 					msg := fmt.Sprint(r)
 					rc.Logf("BUBBLE-END %s", msg)
 					if strings.Contains(msg, "deadlock") {
-						rc.Report(Item{Clause: req.Prop + ".leak", Detail: "synctest: " + msg, Fields: map[string]string{"where": "bubble-end"}})
+						// which goroutines of the run are left? (durably blocked ones inside bubbles, without the storage engine's)
+						buf := make([]byte, 4<<20)
+						buf = buf[:runtime.Stack(buf, true)]
+						left := []string{}
+						for _, g := range strings.Split(string(buf), "\n\n") {
+							lines := strings.Split(g, "\n")
+							if !strings.Contains(lines[0], "synctest bubble") || !strings.Contains(lines[0], "durable") ||
+								strings.Contains(g, "dgraph-io/") || strings.Contains(g, "impl_badgerdb") || strings.Contains(g, "testingSynctestTest") {
+								continue
+							}
+							if len(lines) > 9 {
+								lines = lines[:9]
+							}
+							left = append(left, strings.Join(lines, "\n"))
+						}
+						if len(left) > 6 {
+							left = left[:6]
+						}
+						rc.Report(Item{Clause: req.Prop + ".leak", Detail: "synctest: " + msg + "\n" + strings.Join(left, "\n\n"), Fields: map[string]string{"where": "bubble-end"}})
 					} else {
 						rc.HarnessErr("bubble panic: %v", msg)
 					}
